@@ -40,6 +40,7 @@ var ErrParametersValueSizeTooLarge = errors.New("provided parameters exceeded th
 var ErrNegativeParameterValueLen = errors.New("negative parameter length detected")
 var ErrMalformedMessage = errors.New("malformed message detected")
 var ErrMessageTooLarge = errors.New("payload message hit allowed memory boundaries")
+var ErrInFailedSQLTransaction = errors.New("current transaction is aborted, commands ignored until end of transaction block")
 
 func MapPgError(err error) (er bm.ErrorResp) {
 	switch {
@@ -91,6 +92,11 @@ func MapPgError(err error) (er bm.ErrorResp) {
 	case errors.Is(err, ErrMalformedMessage):
 		er = bm.ErrorResponse(bm.Severity(pgmeta.PgSeverityError),
 			bm.Code(pgmeta.PgServerErrProtocolViolation),
+			bm.Message(err.Error()),
+		)
+	case errors.Is(err, ErrInFailedSQLTransaction):
+		er = bm.ErrorResponse(bm.Severity(pgmeta.PgSeverityError),
+			bm.Code(pgmeta.PgServerErrInFailedSQLTransaction),
 			bm.Message(err.Error()),
 		)
 	default:
